@@ -219,16 +219,25 @@ impl Grammar {
         format!("{d}{text}{d}")
     }
 
+    /// comment delimiters are stored as literal text: regex-escape them unless raw-quoted
+    fn render_delim(text: &str, q: Quote) -> String {
+        match q {
+            Quote::Raw => Self::render_lit(text, q),
+            Quote::Regex => Self::render_lit(&escape_raw(text).replace('/', "\\/"), q),
+            _ => Self::render_lit(&escape_raw(text), q),
+        }
+    }
+
     fn render_scanner_directives(&self, st: &ScannerState, indent: &str, out: &mut String) {
         for (t, q) in &st.line_comments {
-            let _ = writeln!(out, "{indent}%line_comment {}", Self::render_lit(t, *q));
+            let _ = writeln!(out, "{indent}%line_comment {}", Self::render_delim(t, *q));
         }
         for ((s, sq), (e, eq)) in &st.block_comments {
             let _ = writeln!(
                 out,
                 "{indent}%block_comment {} {}",
-                Self::render_lit(s, *sq),
-                Self::render_lit(e, *eq)
+                Self::render_delim(s, *sq),
+                Self::render_delim(e, *eq)
             );
         }
         if !st.auto_nl {
